@@ -12,6 +12,7 @@ import (
 	"path/filepath"
 	"sort"
 	"strings"
+	"time"
 
 	imagev1 "github.com/bufbuild/buf/private/gen/proto/go/buf/alpha/image/v1"
 	"github.com/bufbuild/verifharness/internal/hx"
@@ -41,7 +42,14 @@ func (b *bufRun) exec(dir string, args ...string) result {
 
 // execRaw runs the binary without touching the run's counters (safe to call concurrently).
 func (b *bufRun) execRaw(dir string, args ...string) result {
+	return b.execRawStdin(dir, nil, args...)
+}
+
+func (b *bufRun) execRawStdin(dir string, stdin []byte, args ...string) result {
 	c := exec.Command(b.bin, args...)
+	if stdin != nil {
+		c.Stdin = bytes.NewReader(stdin)
+	}
 	c.Dir = dir
 	c.Env = append(os.Environ(), "HOME="+b.home, "BUF_CACHE_DIR="+filepath.Join(b.home, "cache"), "NO_COLOR=1")
 	var stdout, stderr bytes.Buffer
@@ -210,6 +218,14 @@ func partB(run *hx.Run, r *hx.Rand) {
 	}
 	b := &bufRun{bin: bin, home: root, run: run}
 	n := run.N(5, 24)
+	if !on("b") {
+		n = 0
+	}
+	// B3: round trip of the legacy / options schema family, field by field (partb3.go); its
+	// in-process round trips run in the background while B and B2 spawn their processes
+	var b3 *b3Env
+	timed("B3 (sequential part)", on("b3"), func() { b3 = partB3Start(run, r.Fork(6000), b, root) })
+	tB := time.Now()
 	for i := 0; i < n; i++ {
 		cr := r.Fork(uint64(i))
 		var ws workspace
@@ -229,10 +245,18 @@ func partB(run *hx.Run, r *hx.Rand) {
 		}
 		partBWorkspace(run, b, cr, ws, dir, root, i, i%2 == 0)
 	}
-	// B2: the check configuration chosen for an image input, under a matrix of config shapes
-	for i, nb2 := 0, run.N(1, 8); i < nb2; i++ {
-		partBChecks(run, b, r.Fork(uint64(5000+i)), root, i)
+	if os.Getenv("C11_TIMING") != "" {
+		fmt.Fprintf(os.Stderr, "part B (workspaces): %.1fs\n", time.Since(tB).Seconds())
 	}
+	// B2: the check configuration chosen for an image input, under a matrix of config shapes
+	timed("B2", on("b2"), func() {
+		for i, nb2 := 0, run.N(1, 8); i < nb2; i++ {
+			partBChecks(run, b, r.Fork(uint64(5000+i)), root, i)
+		}
+	})
+	timed("B3 (wait for the round trips)", b3 != nil, func() { b3.finish() })
+	// B4: packagings of workspaces that vendor files at well-known-type paths (partb4.go)
+	timed("B4", on("b4"), func() { partB4(run, r.Fork(7000), b, root) })
 	run.Set("buf_process_runs", b.count)
 }
 
@@ -256,7 +280,13 @@ func partBWorkspace(run *hx.Run, b *bufRun, r *hx.Rand, ws workspace, dir, root 
 		direct[fi] = res.stdout
 		return res.stdout
 	}
-	// (1) encodings x compressions x flags
+	// (1) encodings x compressions x flags (planned first so the random choices keep their order,
+	// then all writes and all reads 12 at a time)
+	type encPlan struct {
+		format, comp, file string
+		fi                 int
+	}
+	var plan []encPlan
 	k := 0
 	for _, format := range []string{"binpb", "json", "txtpb", "yaml"} {
 		for _, comp := range []string{"", ".gz", ".zst"} {
@@ -265,26 +295,35 @@ func partBWorkspace(run *hx.Run, b *bufRun, r *hx.Rand, ws workspace, dir, root 
 				fi = r.Intn(len(flagsets))
 			}
 			k++
-			file := filepath.Join(tmp, fmt.Sprintf("img%d.%s%s", k, format, comp))
-			res := b.exec(dir, append([]string{"build", "-o", file}, flagsets[fi]...)...)
-			if res.code != 0 {
-				fail("C11-encode-failed", res.stderr, file)
-				continue
-			}
-			back := b.exec(dir, append([]string{"build", file, "-o", "-#format=binpb"}, flagsets[fi]...)...)
-			run.Count("B:roundtrip=" + format + comp)
-			run.Distinct(fmt.Sprintf("B:%d:%s%s:%v", i, format, comp, flagsets[fi]))
-			if back.code != 0 && format == "yaml" && strings.Contains(back.stderr, "unknown field \"[") {
-				fail("C11-yaml-image-with-custom-options-unreadable", fmt.Sprintf("%s %v: %s", filepath.Base(file), flagsets[fi], firstLines(back.stderr, 3)), file)
-				continue
-			}
-			if back.code != 0 {
-				fail("C11-encoding-roundtrip-read-error", fmt.Sprintf("%s %v: %s", filepath.Base(file), flagsets[fi], back.stderr), file)
-				continue
-			}
-			if back.stdout != directOf(fi) {
-				fail("C11-encoding-roundtrip-differs", fmt.Sprintf("%s written with %v and read back differs from the direct binpb build (%d vs %d bytes)", filepath.Base(file), flagsets[fi], len(back.stdout), len(directOf(fi))), file)
-			}
+			plan = append(plan, encPlan{format, comp, filepath.Join(tmp, fmt.Sprintf("img%d.%s%s", k, format, comp)), fi})
+		}
+	}
+	var wjobs, rjobs []job
+	for _, p := range plan {
+		wjobs = append(wjobs, job{dir, append([]string{"build", "-o", p.file}, flagsets[p.fi]...)})
+		rjobs = append(rjobs, job{dir, append([]string{"build", p.file, "-o", "-#format=binpb"}, flagsets[p.fi]...)})
+	}
+	wres := b.execAll(wjobs)
+	rres := b.execAll(rjobs)
+	for pi, p := range plan {
+		format, comp, file, fi := p.format, p.comp, p.file, p.fi
+		res, back := wres[pi], rres[pi]
+		if res.code != 0 {
+			fail("C11-encode-failed", res.stderr, file)
+			continue
+		}
+		run.Count("B:roundtrip=" + format + comp)
+		run.Distinct(fmt.Sprintf("B:%d:%s%s:%v", i, format, comp, flagsets[fi]))
+		if back.code != 0 && format == "yaml" && strings.Contains(back.stderr, "unknown field \"[") {
+			fail("C11-yaml-image-with-custom-options-unreadable", fmt.Sprintf("%s %v: %s", filepath.Base(file), flagsets[fi], firstLines(back.stderr, 3)), file)
+			continue
+		}
+		if back.code != 0 {
+			fail("C11-encoding-roundtrip-read-error", fmt.Sprintf("%s %v: %s", filepath.Base(file), flagsets[fi], back.stderr), file)
+			continue
+		}
+		if back.stdout != directOf(fi) {
+			fail("C11-encoding-roundtrip-differs", fmt.Sprintf("%s written with %v and read back differs from the direct binpb build (%d vs %d bytes)", filepath.Base(file), flagsets[fi], len(back.stdout), len(directOf(fi))), file)
 		}
 	}
 	// (2) packagings
@@ -436,7 +475,9 @@ func partBWorkspace(run *hx.Run, b *bufRun, r *hx.Rand, ws workspace, dir, root 
 			}
 			if onlyUnused {
 				run.Count("B:path-build=import-unused-dependency-differs")
-				fail("C11-path-build-import-unused-dependency-differs", fmt.Sprintf("same files, flags and descriptors, but an import file carries different unused_dependency indexes: sources %v, image %v", unusedOf([]byte(a.stdout)), unusedOf([]byte(c.stdout))), in)
+				if unusedDepWitnesses++; unusedDepWitnesses <= 20 {
+					fail("C11-path-build-import-unused-dependency-differs", fmt.Sprintf("same files, flags and descriptors, but an import file carries different unused_dependency indexes: sources %v, image %v", unusedOf([]byte(a.stdout)), unusedOf([]byte(c.stdout))), in)
+				}
 			} else {
 				fail("C11-path-build-image-vs-source", fmt.Sprintf("sources give %v, image gives %v (or file contents differ)", ao, co), in)
 			}
